@@ -15,6 +15,8 @@ AXES = ["time", "leadtime", "year", "month", "week", "day", "timeofday", "dayofy
 AGGS = ["mean", "median", "min", "max", "std", "variance", "iqr", "range", "count", "sum", "meanabs", "absmean", "0.5", "0.9"]
 BINS = ["below", "below=", "above", "above=", "within", "=within", "within=", "=within="]
 
+LEG_STYLES = ["L%d_x", "L%d_x", "exp#%d", "Bob's%d", 'q"%d', "a\\n%d", "#%d", "'%d'", "L%d_x", "r\\%d", "L%d_x"]
+
 PROFILE_CLI = {
     "n_inputs": (1, 3), "p_clim": 0.3, "p_has_obs": 0.9, "p_has_fcst": 1.0, "p_party_has": 0.95,
     "miss_rates": [0.0, 0.05, 0.15, 0.3], "p_keep_dim": 0.9, "n_times": (1, 4), "n_leadtimes": (1, 3),
@@ -127,7 +129,9 @@ def gen_command(rng, world, allow_f=True, auto_thresholds=False):
     if rng.random() < ps:
         groups.append(["-tod", _vec(rng, sorted(set((t % 86400) // 3600 for t in rng.sample(u["times"], rng.randint(1, len(u["times"]))))))])
     if rng.random() < 0.1:
-        groups.append(["-leg", ",".join("L%d_x" % i for i in range(len(files)))])
+        # labels are free text: characters that mean something to a shell or to a tokeniser must arrive verbatim
+        style = LEG_STYLES[(len(groups) * 7 + len(files) * 3 + len(inputs)) % len(LEG_STYLES)]
+        groups.append(["-leg", ",".join(style % i for i in range(len(files)))])
     if rng.random() < 0.08:
         groups.append(["-acc"])
     if rng.random() < 0.02:
@@ -468,6 +472,17 @@ def gen_spec_c18cli(seed, run, tier):
         elif r < 0.55:
             nm, val = erng.choice(ENVVARS)
             out.append({"kind": "env", "op": {"op": "envvar", "name": nm, "value": val}})
+    names_all = set()
+    for p_ in world["inputs"]:
+        names_all.update(p_["fields"])
+    case_pair = sorted(n for n in names_all if n != n.lower() and n.lower() in names_all
+                       and all(n in q["fields"] and n.lower() in q["fields"] for q in world["inputs"]))
+    if case_pair and len(world["inputs"]) >= 2:
+        # two columns that differ only in case: '-m <column>' must pick the same one in every interpreter
+        files = [p_["name"] for p_ in world["inputs"]]
+        out.insert(0, {"kind": "cmd", "argv": files + ["-m", case_pair[0].lower(), "-type", "csv"]})
+    else:
+        case_pair = []
     no_id = any(p["layout"].get("no_id") for p in W.parties(world))
     if no_id:
         # station numbering is then verif's own: ask for it explicitly and compare across interpreters
@@ -476,4 +491,4 @@ def gen_spec_c18cli(seed, run, tier):
         out.insert(1, {"kind": "cmd", "argv": files + ["--list-locations"]})
     return {"prop": "C18", "engine": "B", "seed": seed, "run": run, "tier": tier, "world": world, "cases": out, "session_configs": configs,
             "pinned": mrng.random() < 0.8, "pin_seed": 777, "reuse_argv": mrng.random() < 0.4,
-            "fresh": no_id or mrng.random() < (0.03 if tier == "quick" else 0.06)}
+            "fresh": no_id or bool(case_pair) or mrng.random() < (0.03 if tier == "quick" else 0.06)}
